@@ -382,6 +382,52 @@ def rendered_lines(cases):
     return out
 
 
+def fuzz_campaign(run):
+    """coverage-guided tier (atheris / libFuzzer): independent campaigns in child processes, see vlib/fuzz_c10.py"""
+    import os
+    import subprocess
+    try:
+        import atheris  # noqa: F401
+    except Exception as ex:
+        run.exclude("atheris_unavailable(%s): coverage-guided campaigns skipped" % type(ex).__name__)
+        return
+    known_path = os.path.join(run.scratch, "c10_known.json")
+    with open(known_path, "w") as f:
+        json.dump([list(s) for s in run.known], f)
+    nd, na = run.pick(1500, 120000), run.pick(2500, 300000)
+    plan = run.pick([("dis", nd, "seeded"), ("dis", nd, "empty"), ("toks", na, "empty"), ("toks", na, "empty"), ("text", na, "seeded"), ("text", na, "empty")],
+                    [("dis", nd, "seeded")] * 3 + [("dis", nd, "empty")] * 3 + [("toks", na, "empty")] * 5 + [("text", na, "seeded")] * 3 + [("text", na, "empty")] * 2)
+    procs = []
+    env = dict(os.environ)
+    for k, (target, n, corpus) in enumerate(plan):
+        out = os.path.join(run.scratch, "fuzz-%d-%s" % (k, target))
+        procs.append((k, target, n, corpus, out, subprocess.Popen([sys.executable, "-m", "vlib.fuzz_c10", target, str(n), str(run.seed * 1000 + k), out, known_path, corpus],
+                                                                  cwd=runner.HERE, env=env, stdout=subprocess.DEVNULL, stderr=subprocess.PIPE)))
+    for k, target, n, corpus, out, p in procs:
+        err = p.communicate()[1].decode(errors="replace")
+        sp = os.path.join(out, "stats.json")
+        stats = json.load(open(sp)) if os.path.exists(sp) else {}
+        if not stats.get("final"):
+            raise runner.Inconclusive("fuzz campaign %d (%s) ended early (exit %s): %s" % (k, target, p.returncode, err[-400:].replace("\n", " | ")))
+        st = runner.Stats()
+        st.evals = stats["executions"]
+        st.nontrivial = set(stats["nontrivial"])
+        for c, v in stats["classes"].items():
+            st.classes["fuzz:%s:%s" % (target, c)] = v
+        st.classes["fuzz:%s:campaigns(%s corpus)" % (target, corpus)] = 1
+        st.classes["fuzz:%s:corpus_units_kept_by_coverage" % target] = stats["corpus_files"]
+        st.classes["fuzz:%s:known_finding_hits" % target] = stats["known_hits"]
+        for s in stats["samples"][:3]:
+            st.sample({"fuzz:" + target: s})
+        fp = os.path.join(out, "failures.jsonl")
+        if os.path.exists(fp):
+            for l in open(fp):
+                fl = json.loads(l)
+                st.fail(fl["sig"], "[atheris %s campaign] %s" % (target, fl["detail"]), fl["case"])
+        run.absorb(st)
+    run.extra["fuzz_campaigns"] = [{"target": t, "runs": n, "corpus": c, "seed": run.seed * 1000 + k} for k, (t, n, c) in enumerate(plan)]
+
+
 def main(run):
     run.rule = ("decoder: every window of the structured byte space + full ModRM grids + x87 + control-transfer forms + random 16-byte strings; each accepted instruction "
                 "is re-decoded at every truncation length, with three junk tails, and from a stream at offsets 1..3. assembler: Hypothesis token sequences (<= 8 tokens over "
@@ -400,6 +446,7 @@ def main(run):
     runner.pmap(run, w_asm_mut, [(run.pick(2500, 40000), rend)] * 16)
     runner.pmap(run, w_asm_struct, [run.pick(1500, 30000)] * 16)
     runner.pmap(run, w_asm_arith, list(runner.chunks(arith_lines(), 64)))
+    fuzz_campaign(run)
 
 
 def replay(run, case):
